@@ -56,7 +56,7 @@ def cases(draw):
     order = draw(st.permutations(range(len(pts))))
     pts = [pts[k] for k in order]
     shape = draw(st.sampled_from(blocks.shape_options(len(pts))))
-    return dict(layout=lay, points=pts, shape=shape, order=draw(st.sampled_from(build.ORDERS)), order2=draw(st.sampled_from(build.ORDERS)), kinds=sorted(set(kinds)),
+    return dict(layout=lay, points=pts, shape=shape, order=draw(st.sampled_from(build.ORDERS)), order2=draw(st.sampled_from(build.ORDERS)), container=draw(st.sampled_from(build.CONTAINERS)), kinds=sorted(set(kinds)),
                 extra=draw(st.booleans()))
 
 
@@ -68,7 +68,7 @@ def check(case, ctx):
     n = lay_([p[1] for p in xy], case["shape"])
     coords = (e, n) + ((np.arange(e.size, dtype="float64").reshape(e.shape),) if case["extra"] else ())
     kw = blocks.verde_kwargs(lay)
-    block_coords, labels = vd.block_split(coords, **kw)
+    block_coords, labels = vd.block_split(tuple(build.present(c, case.get("container")) for c in coords), **kw)
     cands = blocks.grid_from_kwargs(kw, coords)
     ctx.check(len(block_coords) == 2, "block_split must return easting and northing of the blocks")
     be, bn = np.asarray(block_coords[0]), np.asarray(block_coords[1])
